@@ -4,12 +4,12 @@ import json, sys
 sys.path.insert(0, '/verif/tools')
 sys.path.insert(0, '/verif/checks')
 import importlib, glob, os
-from manifest_src import NOT_APPLICABLE, HOOK_COMMITS
+from manifest_src import NOT_APPLICABLE, HOOK_COMMITS, CLAIMED
 CHECKS = {}
 for f in sorted(glob.glob('/verif/checks/C*.py')):
     pid = os.path.basename(f)[:-3]
     m = importlib.import_module(pid)
-    if getattr(m, 'MANIFEST', None):
+    if getattr(m, 'MANIFEST', None) and pid in CLAIMED:
         CHECKS[pid] = m.MANIFEST
 props = [json.loads(l)['id'] for l in open('/verif/properties.jsonl')]
 checks = []
